@@ -307,22 +307,34 @@ GROUPS.append(Group('S3', 'every AnsiFormat member: its name in any letter case 
                     bounds='none (finite: all ~800 names of AnsiFormat.__members__ x 5-9 spellings, exhaustive)'))
 
 
+S4_PARTS = ((0, 37), (38, 38), (39, 47), (48, 48), (49, 57), (58, 58), (59, 255))
+
+
 def s4_items(tier):
     K = 4 if tier == 'quick' else 5
     out = []
     for k in range(1, K + 1):
         for nest in range(0, 4):
-            out.append([k, nest])
-    out.append([4, 'group-nested'])
+            if k >= 4:
+                # split by the range of the first code (parallelism; the union is 0..255)
+                for part in range(len(S4_PARTS)):
+                    out.append([k, nest, part])
+            else:
+                out.append([k, nest, None])
+    out.append([4, 'group-nested', None])
     return out
 
 
 def s4_task(envr, item):
-    k, nest = item
+    k, nest, part = item
     I = envr.interp
 
     def body(c):
         vals = [c.named_int('v%d' % i, 0, 255) for i in range(k)]
+        if part is not None:
+            c.assume(b_and(i_cmp('>=', vals[0], S4_PARTS[part][0]), i_cmp('<=', vals[0], S4_PARTS[part][1])))
+            if nest in (1, 2) and S4_PARTS[part][0] == S4_PARTS[part][1]:
+                raise sym.Infeasible()
         if nest in (1, 2):
             # nesting must not cut through an extended-colour group: no introducer among the codes of these two forms
             for v in vals:
